@@ -204,6 +204,10 @@ func judge(s *Scenario, o *Obs) *verdict {
 		judgeDrain(s, o, v)
 		return v
 	}
+	if s.C != nil {
+		judgeCloseBlock(s, o, v)
+		return v
+	}
 	top, ok := asList(o.Value)
 	if !ok || len(top) != 3 {
 		v.add("result-shape", "script result is not [sres, rres, post]: %s", show(o.Value))
@@ -678,6 +682,9 @@ func (s *Scenario) hangClass() string {
 	if s.D != nil {
 		return s.D.class()
 	}
+	if s.C != nil {
+		return s.C.class()
+	}
 	if s.Launch > 0 {
 		var parts []string
 		for ch := range s.Chans {
@@ -762,6 +769,12 @@ func drive(d *mon.Driver, replay string) int {
 				plan = append(plan, planned{s: p}, planned{s: p, race: true})
 			}
 		}
+		// a channel closed by another goroutine while senders are parked in a blocking send
+		rc := d.Rand("closeblock")
+		for i := 0; i < d.N(12, 600); i++ {
+			s := genCloseScenario(rc.SplitN(i), i, d.Thorough())
+			plan = append(plan, planned{s: s}, planned{s: s, race: true})
+		}
 		// a buffered channel closed with values still queued, drained by several receivers
 		rd := d.Rand("drain")
 		for i := 0; i < d.N(22, 1200); i++ {
@@ -831,6 +844,11 @@ func drive(d *mon.Driver, replay string) int {
 				d.Event("race_reports_without_risor_frame_ignored", 1)
 				continue
 			}
+			if p.s.C != nil && r.Sig == closeSendRace {
+				// made by the script on purpose: close while another goroutine sends (see closeblock.go)
+				d.Event("race_reports_close_vs_blocked_send_by_design_ignored", 1)
+				continue
+			}
 			raceSeen[r.Sig]++
 			if raceSeen[r.Sig] > 3 {
 				continue // de-duplicated by function pair; the first ones carry the witnesses
@@ -859,6 +877,8 @@ func drive(d *mon.Driver, replay string) int {
 			nmsg = p.s.W.Rounds
 		} else if p.s.D != nil {
 			nmsg = p.s.D.Rounds
+		} else if p.s.C != nil {
+			nmsg = p.s.C.Rounds
 		}
 		slowest = append(slowest, slowRun{c.ID, o.Ms, p.s.hangClass(), p.s.Procs, nmsg})
 		sort.Slice(slowest, func(i, j int) bool { return slowest[i].Ms > slowest[j].Ms })
@@ -895,6 +915,10 @@ func drive(d *mon.Driver, replay string) int {
 			} else {
 				d.Event("channel_groups_without_overlap", 1)
 			}
+		}
+		if p.s.C != nil {
+			d.Distinct(p.s.C.distinctKey(p.s.Procs))
+			d.Event("close_while_blocked_scenarios", 1)
 		}
 		if p.s.D != nil && len(p.s.D.Styles) >= 2 {
 			d.Distinct(p.s.D.distinctKey(p.s.Procs))
